@@ -27,7 +27,7 @@ SWAPS = [(r" == ", " != "), (r" != ", " == "), (r" < ", " <= "), (r" <= ", " < "
          (r"input\.eof \|\| ", ""), (r"\bcontinue\b", "break"), (r"\bbreak\b", "continue")]
 
 def sh(cmd, cwd=None, timeout=1200):
-    return subprocess.run(cmd, shell=True, cwd=cwd, env=ENV, capture_output=True, text=True, timeout=timeout)
+    return subprocess.run(cmd, shell=True, cwd=cwd, env=ENV, capture_output=True, text=True, errors='replace', timeout=timeout)
 
 def candidates():
     c = []
@@ -87,7 +87,12 @@ def main():
             open(path, "w").write(orig)
             continue
         done += 1
-        r = sh("go test -vet=off -count=1 -timeout 90s ./...", cwd=WT, timeout=400)
+        try:
+            r = sh("go test -vet=off -count=1 -timeout 90s ./...", cwd=WT, timeout=400)
+        except subprocess.TimeoutExpired:
+            log.write(f"KILLED-BY-SUITE(timeout) {desc}\n"); log.flush()
+            open(path, "w").write(orig)
+            continue
         if r.returncode != 0:
             log.write(f"KILLED-BY-SUITE {desc}\n"); log.flush()
             open(path, "w").write(orig)
@@ -96,7 +101,7 @@ def main():
         for k in range(1, 21):
             pid = f"C{k:02d}"
             try:
-                rr = subprocess.run(["./run.sh", pid, "quick"], cwd="/verif", env=env_run, capture_output=True, text=True, timeout=1500)
+                rr = subprocess.run(["./run.sh", pid, "quick"], cwd="/verif", env=env_run, capture_output=True, text=True, errors="replace", timeout=1500)
                 rc = rr.returncode
             except subprocess.TimeoutExpired:
                 rc = 99
